@@ -15,7 +15,8 @@ Definition LK : bool := false.
 
 (* one observation per executed schedule entry:
    code: 0 = skipped (thread finished earlier / still blocked), 1 = ran to the end of its program,
-         2 = blocked (no hook site reached), 100/101/102/112 = hook site reached;
+         2 = blocked (no hook site reached), 99/100/101/102/112 = hook site reached;
+         plus 1000 * (r + 1) when blocked thread r got the mutex during this entry (see [coarse]);
    done: number of calls the thread has completed so far;
    cnts: the five pool counters (BudgetStats) read while every thread is parked; [] when stats()
          itself panicked (it adds the five counters with overflow checks) *)
@@ -52,28 +53,56 @@ Fixpoint list_eqb {A : Type} (f : A -> A -> bool) (a b : list A) : bool :=
 
 Definition fuel_of (progs : list (list op)) : nat := (40 + length (concat progs))%nat.
 
-(* one coarse step of the model and the outcome the scheduler would report *)
-Definition coarse (fuel : nat) (t : nat) (s : St) : St * Z :=
-  match step LK t s with
-  | None => (s, 0)
-  | Some _ =>
-      let s' := run_until (step LK) at_site fuel t s in
-      (s', match lget (thrs s') t with
-           | Some th => if site_code th =? 0 then 2 else site_code th
-           | None => 0
-           end)
+(* The correspondence state: the model state and the threads blocked on allocate's mutex (they
+   were scheduled while parked at site 99 with the mutex held by somebody else; the scheduler
+   reports such a thread "blocked" once and "skipped" from then on).
+
+   One schedule entry t:
+     - t blocked earlier, or finished: nothing happens, outcome 0;
+     - t parked in front of the mutex (ALock) and the mutex is held: outcome 2, t joins the blocked set;
+     - otherwise t runs to its next hook site (outcome = site) or to the end (outcome 1).
+   Then, if the mutex is free and some thread is blocked on it, ONE blocked thread acquires it and
+   runs to its site 100 inside the same schedule entry; which one is parking_lot's choice, so the
+   model takes the observed thread [r] (it must be a blocked one) - reported as
+   outcome + 1000 * (r + 1). *)
+Definition is_alock (s : St) (t : nat) : bool :=
+  match lget (thrs s) t with Some th => match tpc th with ALock _ _ => true | _ => false end | None => false end.
+Fixpoint mem (t : nat) (l : list nat) : bool := match l with [] => false | x :: r => Nat.eqb x t || mem t r end.
+Fixpoint remove1 (t : nat) (l : list nat) : list nat :=
+  match l with [] => [] | x :: r => if Nat.eqb x t then r else x :: remove1 t r end.
+Definition code_of (s : St) (t : nat) : Z :=
+  match lget (thrs s) t with Some th => if site_code th =? 0 then 2 else site_code th | None => 0 end.
+
+Definition coarse (fuel : nat) (t : nat) (hint : Z) (sw : St * list nat) : (St * list nat) * Z :=
+  let '(s, ws) := sw in
+  let '(s1, ws1, code) :=
+    if mem t ws then (s, ws, 0)
+    else match step LK t s with
+         | None => if is_alock s t then (s, ws ++ [t], 2) else (s, ws, 0)
+         | Some _ => let s' := run_until (step LK) at_site fuel t s in (s', ws, code_of s' t)
+         end in
+  (* hand-over of the mutex to a blocked thread *)
+  match lock s1, ws1 with
+  | None, w0 :: _ =>
+      let r := if (0 <=? hint) && mem (Z.to_nat hint) ws1 then Z.to_nat hint else w0 in
+      let s2 := run_until (step LK) at_site fuel r s1 in
+      ((s2, remove1 r ws1), code + 1000 * (Z.of_nat r + 1) + (if code_of s2 r =? 100 then 0 else 500))
+  | _, _ => ((s1, ws1), code)
   end.
 Definition obs_cnts (s : St) : list Z := if U64 <=? total (sh s) then [] else clist (sh s).
 Definition done_of (s : St) (t : nat) : Z :=
   match lget (thrs s) t with Some th => Z.of_nat (length (tlog th)) | None => 0 end.
+(* the resumed thread the implementation reported in this observation (-1: none) *)
+Definition hint_of (o : option obs) : Z :=
+  match o with Some (c, _, _) => c / 1000 - 1 | None => -1 end.
 
-Fixpoint sim (fuel : nat) (sched : list nat) (s : St) : list obs * St :=
+Fixpoint sim (fuel : nat) (sched : list nat) (ob : list obs) (sw : St * list nat) : list obs * St :=
   match sched with
-  | [] => ([], s)
+  | [] => ([], fst sw)
   | t :: rest =>
-      let '(s', code) := coarse fuel t s in
-      let '(os, sf) := sim fuel rest s' in
-      ((code, done_of s' t, obs_cnts s') :: os, sf)
+      let '(sw', code) := coarse fuel t (hint_of (hd_error ob)) sw in
+      let '(os, sf) := sim fuel rest (tl ob) sw' in
+      ((code, done_of (fst sw') t, obs_cnts (fst sw')) :: os, sf)
   end.
 
 Definition model_results (s : St) (n : nat) : list (list Z) :=
@@ -84,7 +113,7 @@ Definition model_agrees (c : case) : bool :=
   match c with
   | Case limreq l progs sched ob results =>
       let s0 := init limreq (number 0 progs) in
-      let '(os, sf) := sim (fuel_of progs) sched s0 in
+      let '(os, sf) := sim (fuel_of progs) sched ob (s0, []) in
       progs_wf (number 0 progs) && (lim s0 =? l) && list_eqb obs_eqb os ob
       && list_eqb zlist_eqb (model_results sf (length progs)) results
   end.
@@ -168,11 +197,12 @@ Definition accounting_ok (c : case) : bool :=
    (1 = another pool's counter grew after it was read, F-C39-1; 2 = the own pool's counter grew
    and came back to the expected value, ABA, F-C39-2).  Proof.Budget: a CAS of class 0 cannot
    take the total above the limit. *)
-Fixpoint first_over (fuel : nat) (sched : list nat) (s : St) : Z :=
+Fixpoint first_over (fuel : nat) (sched : list nat) (ob : list obs) (sw : St * list nat) : Z :=
   match sched with
   | [] => 0
   | t :: rest =>
-      let '(s', _) := coarse fuel t s in
+      let '(sw', _) := coarse fuel t (hint_of (hd_error ob)) sw in
+      let s := fst sw in let s' := fst sw' in
       if lim s' <? total (sh s') then
         let n0 := Z.to_nat (done_of s t) in
         let n1 := Z.to_nat (done_of s' t) in
@@ -180,12 +210,12 @@ Fixpoint first_over (fuel : nat) (sched : list nat) (s : St) : Z :=
         | Some th => fold_right Z.max 0 (map ev_cls (firstn (n1 - n0) (tlog th)))
         | None => 0
         end
-      else first_over fuel rest s'
+      else first_over fuel rest (tl ob) sw'
   end.
 Definition known_class (c : case) : Z :=
   match c with
-  | Case limreq _ progs sched _ _ =>
-      if accounting_ok c then first_over (fuel_of progs) sched (init limreq (number 0 progs)) else 0
+  | Case limreq _ progs sched ob _ =>
+      if accounting_ok c then first_over (fuel_of progs) sched ob (init limreq (number 0 progs), []) else 0
   end.
 
 Fixpoint failures_from (i : Z) (cs : list case) : list (Z * bool * bool * Z) :=
